@@ -104,7 +104,7 @@ func minterParamsStr(p mintertypes.Params) string {
 		}
 		parts = append(parts, fmt.Sprintf("%d/%s/%s", m.SequenceId, e, c))
 	}
-	return fmt.Sprintf("%s|%d|[%s]", esc(p.MintDenom), p.StartTime.UnixNano(), strings.Join(parts, ";"))
+	return fmt.Sprintf("%s|%s|[%s]", esc(p.MintDenom), nanosOf(p.StartTime), strings.Join(parts, ";"))
 }
 
 func inflTok(s string) string {
@@ -129,7 +129,11 @@ func execMinter(x *Exec, toks []string) string {
 	k := x.env.app.CfeminterKeeper
 	switch toks[0] {
 	case "m.cfg":
-		f.raw = mintertypes.Params{MintDenom: unesc(toks[1]), StartTime: timeOf(int64Tok(toks[2]))}
+		st := time.Time{} // "zero": the unset start time
+		if toks[2] != "zero" {
+			st = timeOf(int64Tok(toks[2]))
+		}
+		f.raw = mintertypes.Params{MintDenom: unesc(toks[1]), StartTime: st}
 		return "."
 	case "m.period":
 		if toks[1] == "nilminter" {
@@ -602,7 +606,7 @@ func genMinterUpd(g *Gen, n int) {
 		start, periods := genMinterConfig(g, true)
 		g.emit("m.init %d 0 0 0 %d", periods[0].seq, start-sec)
 		now := start
-		if s%3 == 0 {
+		if (s+g.shape)%3 == 0 {
 			// directed shape: an otherwise valid update whose only flaw is one boundary value of the
 			// current exponential period (step duration 0, amount 0), sent by governance, followed by
 			// the inflation query and a block
@@ -639,6 +643,21 @@ func genMinterUpd(g *Gen, n int) {
 			g.emit("m.infl %d", now)
 			g.emit("m.block %d", now)
 			g.count("update/boundary-" + flaw)
+		}
+		if (s+g.shape)%3 == 1 {
+			// directed shape: an update that leaves the start time unset (Go's zero time) in front of a
+			// linear period: valid, mints on the millisecond scale from year 1 on, and must survive an
+			// export / import unchanged
+			g.emit("m.cfg umint zero")
+			g.emit("m.period %d %d lin %s", periods[0].seq, now+int64(1000+g.intn(5000))*sec, g.pick("1000000", "63113904000000000000000", "7"))
+			g.emit("m.period %d - none", periods[0].seq+1)
+			g.emit("m.update %s gov", g.pick("full", "minters"))
+			g.emit("m.params")
+			g.emit("m.fund 1000000")
+			now += 10 * sec
+			g.emit("m.block %d", now)
+			g.emit("m.infl %d", now)
+			g.count("update/zero-start-time")
 		}
 		for i := 0; i < 4+g.intn(10); i++ {
 			switch g.intn(3) {
